@@ -39,6 +39,10 @@ TEMPLATES = {
                    ("end", "END_GROUP", "g")],
     "semis": [("asg", "a", "1"), ("semi",), ("asg", "b", "2"), ("semi",), ("asg", "c", "3"), ("semi",)],
     "five": [("asg", "a", "1"), ("asg", "b", "2"), ("asg", "c", "3"), ("asg", "d", "4"), ("asg", "e", "0"), ("END",)],
+    # the same parameter name several times (also the one that loses its value), at top level and in a block
+    "repeat": [("asg", "a", "1"), ("asg", "b", "2"), ("asg", "a", "3"), ("asg", "c", "4"), ("asg", "a", "0"), ("END",)],
+    "repeatgroup": [("asg", "a", "1"), ("begin", "GROUP", "g"), ("asg", "a", "2"), ("asg", "b", "3"), ("asg", "a", "4"),
+                    ("asg", "b", "0"), ("end", "END_GROUP"), ("asg", "b", "1"), ("END",)],
     # comments that contain '=' signs and line ends, before, between and directly after the statements
     "cmtafter": [("asg", "a", "1"), ("cmt", "/* x = y */"), ("asg", "b", "2"), ("cmt", "/* =\n= */"), ("asg", "c", "3"),
                  ("cmt", "/* z = */"), ("END",)],
